@@ -67,6 +67,10 @@ class StmtMixin:
                 elif z3.is_expr(x) and z3.is_bool(x):
                     xa = xa if xa is not None else FALSE
                     xb = xb if xb is not None else FALSE
+                elif z3.is_expr(x) and k in ("armedctx", "armedch", "ctxdone"):
+                    base = z3.K(x.sort().domain(), FALSE)
+                    xa = xa if xa is not None else base
+                    xb = xb if xb is not None else base
                 elif z3.is_expr(x) and isinstance(k, str) and (k.startswith("arg:") or k.startswith("ret:") or k.startswith("recv:")):
                     # recorded call values: on the side that never made the call any value will do
                     xa = xa if xa is not None else x
@@ -807,9 +811,15 @@ class StmtMixin:
 
     def check_loop_counters(self, s, head, out):
         """Operation counters are not havoc'd at loop heads: a loop may only perform tracked operations on paths that leave it."""
-        tracked = self.tracked_events() if hasattr(self, "tracked_events") else set()
+        tracked = set(self.tracked_events()) if hasattr(self, "tracked_events") else set()
+        c = getattr(self.cur_func, "contract", None)
+        if c is not None:
+            # operations the function's own clauses count or order are tracked here too
+            import re as _re
+            for cl in c.clauses:
+                tracked |= set(_re.findall(r'zz(?:Calls|Seq|Arg|Ret|Recv)(?:\[[^\]]*\])?\("([^"]+)"', cl.get("text") or ""))
         for k, v in out.ghost.items():
-            if isinstance(k, str) and k.startswith("ev:") and k[3:] in tracked:
+            if isinstance(k, str) and k.startswith("ev:") and k[3:] in tracked and not k.startswith("ev:select.arm:"):
                 h = head.ghost.get(k)
                 same = (h is None and z3.is_bv_value(z3.simplify(v)) and z3.simplify(v).as_long() == 0) or (h is not None and z3.is_expr(v) and z3.simplify(v - h).eq(z3.BitVecVal(0, 64)))
                 if not same:
